@@ -83,6 +83,18 @@ def lifetime_modules():
     bl = [ablock2('asg_v', 'a -= b', ('X("(c[a]-b)")', '1', '1')), ablock2('asg_r', 'a -= &b', ('X("(c[a]-c[b])")', '1', '2')),
           block('rr', 'let a = %s; let b = %s;' % (X('a'), Xb), '&a - &b', ('X("(c[a]-c[b])")', '1', '2'))]
     out.append(('Sub, SubAssign', item, bl))
+    # 7. further attributes on the user's impl: a second request stacked below the first one and spelled with the crate path,
+    #    foreign attributes; each request derives its own forms from the user's impl, once
+    base = ("impl ::core::ops::Add for X { type Output = X; fn add(self, rhs: X) -> X { tick(); "
+            "X(format!(\"({}-{})\", self.0, rhs.0)) } }")
+    bl = [block('rr', 'let a = %s; let b = %s;' % (X('a'), Xb), '&a + &b', ('X("(c[a]-c[b])")', '1', '2')),
+          block('vr', 'let a = %s; let b = %s;' % (X('a'), Xb), 'a + &b', ('X("(a-c[b])")', '1', '1')),
+          ablock2('asg_v', 'a += b', ('X("(c[a]-b)")', '1', '1'))]     # (separate requests: `+=` is derived from the user's impl only)
+    out.append(('Add', '#[::derive_ex::derive_ex(AddAssign)]\n' + base, bl))
+    out.append(('Add', '#[derive_ex::derive_ex(AddAssign)]\n#[allow(unused_variables)]\n#[doc = "the user\'s impl"]\n#[cfg(all())]\n' + base, bl))
+    out.append(('AddAssign', '#[allow(unused_variables)]\n#[::derive_ex::derive_ex(Add)]\n' + base, bl))
+    # 8. ... and through a renamed import of the macro
+    out.append(('Add', '#[dx(AddAssign)]\n' + base + '\nuse ::derive_ex::derive_ex as dx;', bl))
     return out
 
 
